@@ -261,6 +261,7 @@ K_TR_IND = [H("k_c18_ind_" + sh, "transient", "inductive step from ANY state of 
                timeout_q=900)
             for sh in ["keep", "register", "disable", "disabled", "remove", "replace", "none"]]
 PROPS["C16"]["k"] = PROPS["C16"]["k"] + K_TR_IND
+PROPS["C07"]["k"] = PROPS["C07"]["k"] + K_TR_IND
 P("C18", "proof", K_TR_IND + [K_TR["3"], K_TR["e3"], K_TR["noop"], K_TR["4"], K_TR["5"]], bounds="3 operations (quick), 4-5 (thorough)",
   outside="fd-backed children are represented by the mock child (a double unregister is ENOENT for Generic: shown natively); "
           "more than two changes without an intervening re-registration in the k-step harnesses (the inductive family covers one "
@@ -290,12 +291,12 @@ def M(name, fn, what, functions, bounds="", replay=None, tiers=Q, kind="M"):
 
 
 DE_FN = ["EventLoop::dispatch_events (+ closures #0, #1)"]
-DE_B = "every loop body of dispatch_events executed once from an arbitrary state (loop heads cut), all paths"
+DE_B = "one iteration of the events loop of dispatch_events from an ARBITRARY state of all loop-carried locals (havoc at the loop head), all paths; other loops cut after their first iteration"
 DE_B1 = "dispatch_events for a batch of exactly one event (events loop unwound once, then the loop-exit assumption), all paths to the return"
 M_DE = {
     "pa2": M("pa2_reset", OB.ob_pa2_reset, OB.ob_pa2_reset.__doc__, DE_FN, DE_B, replay=["d3_pending_action_error_path"]),
     "pav": M("pa_value", OB.ob_pa_value, OB.ob_pa_value.__doc__, DE_FN, DE_B, replay=["d3_pending_action_error_path"]),
-    "disp1": M("disp1_receiver", OB.ob_disp1_receiver, OB.ob_disp1_receiver.__doc__, DE_FN, DE_B, replay=["c01_routing_scenarios", "c14_lifecycle_scenarios"]),
+    "disp1": M("disp1_receiver", OB.ob_disp1_receiver, OB.ob_disp1_receiver.__doc__, DE_FN, DE_B, replay=["c01_routing_scenarios", "c14_lifecycle_scenarios", "c16_removed_in_callback"]),
     "fsub": M("tokens_forget_sub", OB.ob_tokens_forget_sub, OB.ob_tokens_forget_sub.__doc__, DE_FN, DE_B, replay=["c14_lifecycle_scenarios"]),
     "rm3": M("rm3_removed_check", OB.ob_rm3_removed_check, OB.ob_rm3_removed_check.__doc__, DE_FN, DE_B, replay=["c16_removed_in_callback", "c14_lifecycle_scenarios", "d13_self_remove_then_error", "d15_remove_with_failing_unregister_lifecycle"]),
     "re1": M("re1_no_guards", OB.ob_re1_no_guards, OB.ob_re1_no_guards.__doc__, DE_FN, DE_B, replay=["c08_reentrancy_scenarios"]),
@@ -310,7 +311,7 @@ M_H = {
     "remove": M("handle_remove", OB.ob_handle_remove, OB.ob_handle_remove.__doc__, H_FN[:1], "all paths (loop-free)", replay=["c06_removal_scenarios", "c01_routing_scenarios", "c16_removed_in_callback", "c08_reentrancy_scenarios", "d15_remove_with_failing_unregister_lifecycle"]),
     "disable": M("handle_disable", OB.ob_handle_disable, OB.ob_handle_disable.__doc__, H_FN[1:2], "all paths (loop-free)", replay=["c01_routing_scenarios", "d3_pending_action_error_path", "c08_reentrancy_scenarios"]),
     "update": M("handle_update", OB.ob_handle_update, OB.ob_handle_update.__doc__, H_FN[2:3], "all paths (loop-free)", replay=["c01_routing_scenarios", "d3_pending_action_error_path", "c05_timer_scenarios"]),
-    "enable": M("handle_enable", OB.ob_handle_enable, OB.ob_handle_enable.__doc__, H_FN[3:4], "all paths (loop-free)", replay=["c01_routing_scenarios", "c05_timer_scenarios"]),
+    "enable": M("handle_enable", OB.ob_handle_enable, OB.ob_handle_enable.__doc__, H_FN[3:4], "all paths (loop-free)", replay=["c01_routing_scenarios", "c05_timer_scenarios", "c15_failed_registration"]),
     "re2": M("re2_no_double_borrow", OB.ob_re2_no_double_borrow, OB.ob_re2_no_double_borrow.__doc__, H_FN, "all paths", replay=["c08_reentrancy_scenarios"]),
     "reg1": M("register_dispatcher", OB.ob_register_dispatcher, OB.ob_register_dispatcher.__doc__, H_FN[4:5], "all paths", replay=["c15_failed_registration", "d1_failed_lifecycle_register"]),
     "idles": M("idles", OB.ob_idles, OB.ob_idles.__doc__, ["EventLoop::dispatch", "EventLoop::dispatch_idles"], "idle loop unrolled twice", replay=["c13_idle_scenarios"]),
@@ -340,7 +341,7 @@ M_EX = {
     "process": M("exec_process", OB.ob_exec_process, OB.ob_exec_process.__doc__, ["<Executor<T> as EventSource>::process_events (+closure)"],
                  "dequeue loop unrolled twice", replay=["p_exec_stress"]),
     "send": M("exec_send", OB.ob_exec_send, OB.ob_exec_send.__doc__, ["futures::Sender::send"], "all paths", replay=["p_exec_stress"]),
-    "drop": M("exec_drop", OB.ob_exec_drop, OB.ob_exec_drop.__doc__, ["<Executor<T> as Drop>::drop", "Scheduler::schedule"], "loops unrolled twice", replay=["p_exec_stress"]),
+    "drop": M("exec_drop", OB.ob_exec_drop, OB.ob_exec_drop.__doc__, ["<Executor<T> as Drop>::drop (+closure)", "Scheduler::schedule", "<StoreOnDrop as Drop>::drop"], "loops unrolled twice", replay=["p_exec_stress", "c10_stream_scenarios"]),
     "stream": M("stream", OB.ob_stream, OB.ob_stream.__doc__, ["<StreamSource<S> as EventSource>::process_events (+closure)"], "poll loop unrolled twice", replay=["c10_stream_scenarios"]),
 }
 
@@ -349,7 +350,7 @@ M_IO = {
     "drop": M("async_drop", OB.ob_async_drop, OB.ob_async_drop.__doc__, ["<Async as Drop>::drop", "<LoopInner as IoLoopInner>::kill", "Async::into_inner"],
               "all paths", replay=["d5_async_adapter_registration", "c17_async_io", "c15_failed_registration"]),
     "io": M("async_io", OB.ob_async_io, OB.ob_async_io.__doc__, ["<Readable as Future>::poll", "<Writable as Future>::poll", "Async::poll_read",
-            "Async::poll_read_vectored", "Async::poll_write", "Async::poll_write_vectored", "Async::poll_flush", "Async::register_waker"], "all paths", replay=["c17_async_io"]),
+            "Async::poll_read_vectored", "Async::poll_write", "Async::poll_write_vectored", "Async::poll_flush", "Async::register_waker", "<RefCell<IoDispatcher> as EventDispatcher>::process_events"], "all paths", replay=["c17_async_io"]),
 }
 
 M_TM = {
@@ -392,14 +393,14 @@ def addm(pid, obs):
 
 addm("C01", [M_DE["disp1"], M_DE["fsub"], M_DE["lc2"], M_TOK, M_TM["timer"]])
 addm("C20", [M_TOK, M_SLOTS])
-addm("C02", [M_DE["disp1"], M_CH["process"], M_EX["process"], M_POLL])
+addm("C02", [M_DE["disp1"], M_CH["process"], M_EX["process"], M_POLL, M_IO["io"]])
 addm("C03", [M_PING["ping"], P_Q["ping"]])
 P("C04", "model_checking", [], [M_CH["send"], M_CH["process"], M_PING["ping"], P_Q["chan"]],
   bounds="engine M: all paths, receive loop unrolled twice, batch limit for every 64-bit capacity; engine P: see obligation bounds",
   outside="std::sync::mpsc itself (linearizable FIFO, disconnect when the last sender is dropped; try_recv on a zero-capacity "
           "channel pairs with a blocked sender); weak memory; more than one sender thread in the interleaving query")
 addm("C05", [M_TM["wheel"], M_TM["timer"], M_TM["stale"], M_POLL])
-addm("C06", [M_H["remove"], M_H["disable"], M_H["update"], M_H["enable"], M_DE["rm3"], M_TOK, M_SLOTS])
+addm("C06", [M_H["remove"], M_H["disable"], M_H["update"], M_H["enable"], M_DE["rm3"], M_DE["disp1"], M_TOK, M_SLOTS])
 addm("C07", [M_H["disable"], M_H["enable"], M_DE["pa2"], M_DE["fsub"], M_DE["rm3"], M_TM["timer"], M_DELEG])
 addm("C08", [M_DE["re1"], M_H["re2"], M_EX["process"], M_DE["pa2"], M_H["idles"], M_DE["rm3"], M_H["remove"]])
 addm("C09", [M_DE["pa2"], M_DE["pav"], M_H["disable"], M_H["update"]])
@@ -414,7 +415,7 @@ P("C11", "model_checking", [], [M_L["run"], M_L["block_on"], M_L["signal"], M_PO
 addm("C12", [M_DE["lc2"], M_TM["wheel"], M_TM["timer"], M_POLL])
 addm("C13", [M_H["idles"], M_H["insidle"]])
 addm("C14", [M_DE["lc2"], M_DE["fsub"], M_DE["rm3"]])
-addm("C15", [M_H["reg1"], M_IO["new"], M_DE["err1"], M_DE["err2"], M_DE["pa2"], M_SLOTS])
+addm("C15", [M_H["reg1"], M_H["enable"], M_H["update"], M_H["disable"], M_IO["new"], M_DE["err1"], M_DE["err2"], M_DE["pa2"], M_SLOTS])
 addm("C16", [M_IO["drop"], M_IO["new"], M_DE["rm3"], M_DELEG])
 addm("C17", [M_IO["io"], M_IO["new"], M_IO["drop"]])
 for _p in ("C03",):
